@@ -524,7 +524,7 @@ public:
 		static_assert(TMode == SerializeMode::Load, "BitSerializer. This data type can be used only in 'Load' mode.");
 		rapidjson::IStreamWrapper isw(encodedInputStream);
 		rapidjson::AutoUTFInputStream<uint32_t, rapidjson::IStreamWrapper> eis(isw);
-		if (mRootJson.template ParseStream<rapidjson::kParseFullPrecisionFlag>(eis).HasParseError()) {
+		if (mRootJson.template ParseStream<rapidjson::kParseFullPrecisionFlag, rapidjson::AutoUTF<uint32_t>>(eis).HasParseError()) {
 			throw ParsingException(rapidjson::GetParseError_En(mRootJson.GetParseError()), 0, mRootJson.GetErrorOffset());
 		}
 	}
